@@ -113,6 +113,8 @@ def plan(tier, seed):
         items.append({"large": n, "fraction": 0.25})
     for v in parents(tier)[:3]:
         items.append({"variant": [v[0], v[1], v[2], v[3]], "fraction": 0.5, "supplied": True})
+    for v in parents(tier)[:4]:
+        items.append({"variant": [v[0], v[1], v[2], v[3]], "cli_train": True})
     ps = parents(tier)
     for ci, cfg in enumerate(CLI_CONFIGS):
         for pi in range(2 if tier == "quick" else 6):
@@ -425,6 +427,52 @@ def run_large_item(item, col, tier):
         shutil.rmtree(tmpdir, ignore_errors=True)
 
 
+def run_cli_train_item(item, col, tier):
+    """Posterior samples are learned through the command line (train_model on the training screen of the split) and through
+    the library on the same screen with the same seed: they are the same samples - in particular they index the embedding
+    rows by the ids of the prepared simulation, also when a sample or a condition occurs in no observed row."""
+    from batchie import sampling
+    from batchie.core import ThetaHolder
+    from batchie.models.sparse_combo import SparseDrugCombo
+
+    v = item["variant"]
+    parent = make_screen(_parent_rows((v[0], v[1], v[2], v[3])), control=v[0])
+    train, test = R.create_plate_balanced_holdout_set_among_masked_plates(parent, 0.5, ScriptedGenerator(Chooser()))
+    tmp = env.scratch_dir("c03t")
+    try:
+        for label, stage in (("training screen", train), ("training screen after revealing its first unobserved plate", None)):
+            if stage is None:
+                un = unobserved_plate_ids(train)
+                if not un:
+                    continue
+                stage = R.reveal_plates(train, un[:1])
+            case = {"cli_train": True, "variant": item["variant"], "stage": label}
+            col.evaluations += 1
+            col.states += 1
+            col.transitions += 2
+            a, out = os.path.join(tmp, "stage.h5"), os.path.join(tmp, "thetas.h5")
+            stage.save_h5(a)
+            if os.path.exists(out):
+                os.remove(out)
+            run_cli("train_model", ["--data", a, "--output", out, "--model", "SparseDrugCombo", "--model-param", "n_embedding_dimensions=2",
+                                    "--n-samples", 2, "--n-burnin", 1, "--thin", 1, "--n-chains", 1, "--chain-index", 0, "--seed", 5])
+            got = ThetaHolder.load_h5(out)
+            loaded = Screen.load_h5(a)
+            m = SparseDrugCombo(experiment_space=ExperimentSpace.from_screen(loaded), n_embedding_dimensions=2)
+            ob = loaded.subset_observed()
+            if ob is not None:
+                m.add_observations(ob)
+            want = sampling.sample(m, ThetaHolder(n_thetas=2), seed=5, n_chains=1, chain_index=0, n_burnin=1, thin=1, progress_bar=False)
+            same = all(np.array_equal(np.asarray(getattr(x, n_)), np.asarray(getattr(y, n_))) for x, y in zip(got.thetas, want.thetas) for n_ in ("W", "W0", "V2", "V1", "V0"))
+            col.outcome("cli-train", label, same)
+            col.nontriv("cli-train", tuple(map(str, item["variant"])), label)
+            if not same:
+                col.violation("C03|cli-train|samples-differ", f"parent {item['variant']}, {label}: train_model --seed 5 and the library (same screen, same seed) learn different posterior samples: "
+                                                              f"the command line does not hand the model the screen's own ids", case)
+    finally:
+        shutil.rmtree(tmp, ignore_errors=True)
+
+
 def run_history(root, history, tmpdir):
     s = root
     for op in history:
@@ -435,6 +483,8 @@ def run_history(root, history, tmpdir):
 def run_item(item, col, tier):
     if item.get("large"):
         return run_large_item({"n": item["large"], "fraction": item["fraction"]}, col, tier)
+    if item.get("cli_train"):
+        return run_cli_train_item(item, col, tier)
     depth = None if tier == "thorough" else BOUNDS["quick"]["bfs_depth"]
     tmpdir = env.scratch_dir("c03")
     try:
@@ -537,6 +587,8 @@ def finish(total, tier):
 def replay(case, col):
     if case.get("large"):
         return run_large_item({"n": case["large"], "fraction": case["fraction"]}, col, "quick")
+    if case.get("cli_train"):
+        return run_cli_train_item({"variant": case["variant"], "cli_train": True}, col, "quick")
     item = case["item"]
     try:
         parent, train, test = prepare(item, Chooser(case["choices"]))
